@@ -9,9 +9,12 @@
    (without request object and id_token_hint), ResponseMessage, oauth2/oidc AuthorizationResponse,
    RegistrationRequest, RegistrationResponse, ProviderConfigurationResponse, OpenIDSchema, IdToken,
    JsonWebToken / AuthnToken, LogoutToken, EndSessionRequest: each rule set is the ordered list of
-   (condition, exception) the code checks, tied to the code by exhaustive truth tables.  Embedded signed
-   objects (AccessTokenResponse, BackChannelLogoutRequest, id_token_hint) and the opaque kinds are
-   decided by the driver's oracle on the real code only. *)
+   (condition, exception) the code checks, tied to the code by exhaustive truth tables.  Request objects:
+   oauth2.JWTSecuredAuthorizationRequest / PushedAuthorizationRequest (unpack, strict / lax merge, generic
+   check on the merged message; the signature check is symbolic), tied to the code by the driver's
+   request-object matrix.  The other embedded signed objects (AccessTokenResponse, BackChannelLogoutRequest,
+   id_token_hint, the request object of oauth2 / oidc AuthorizationRequest) and the opaque kinds are decided by
+   the driver's oracle on the real code only. *)
 From Coq Require Import String.
 From Verif Require Import Lib.Base Lib.PyStr Lib.MsgSchema Gen.Schema
   Model.Msg Model.MsgKinds Model.MsgRules Model.MsgCheck Proofs.Msg_proofs Proofs.MsgTable_proofs Proofs.MsgRules_proofs.
@@ -87,6 +90,30 @@ Theorem C11_AuthorizationRequest_verify :
   authz_verify c nonce m = Ok m' -> schema_ok c m' = true /\ authz_rules nonce m' = Ok tt.
 Proof. exact authz_verify_sound. Qed.
 Print Assumptions C11_AuthorizationRequest_verify.
+
+(* ---- verify() of the classes that unpack and merge a signed request object (Model/Msg.v jar_verify:
+        oauth2.JWTSecuredAuthorizationRequest, strict merge; par_verify: oauth2.PushedAuthorizationRequest,
+        lax merge); the object's signature check is symbolic (payload = Some p: verified content p) ---- *)
+(* the message AS IT STANDS AFTER verification satisfies the schema, whatever the object holds or omits *)
+Theorem C11_JAR_verify :
+  forall c roc payload m m', jar_verify c roc payload m = Ok m' -> schema_ok c m' = true.
+Proof. exact jar_verify_sound. Qed.
+Print Assumptions C11_JAR_verify.
+
+Theorem C11_PAR_verify :
+  forall c roc payload m m', par_verify c roc payload m = Ok m' -> schema_ok c m' = true.
+Proof. exact par_verify_sound. Qed.
+Print Assumptions C11_PAR_verify.
+
+(* ... and because the strict merge deletes every outer parameter the object does not carry, an accepted
+   JWT-secured request has every required parameter inside the signed object: a complete outer request does
+   not make up for an object that omits response_type or client_id *)
+Theorem C11_JAR_required_in_object :
+  forall c roc p m m' ro q, find_param verified_request (c_params c) = None ->
+  has_key (PS "request") m = true -> jar_verify c roc (Some p) m = Ok m' -> construct roc p = Ok ro ->
+  In q (c_params c) -> p_req q = true -> p_name q <> star -> has_key (p_name q) ro = true.
+Proof. exact jar_required_in_object. Qed.
+Print Assumptions C11_JAR_required_in_object.
 
 (* ---- cross-parameter rules of the other classes: accepted exactly when the parent check accepts and
         every rule of the class holds (`all_hold` of the ordered rule list) ---- *)
@@ -219,3 +246,33 @@ Example C11_rules_nonvacuous :
   | None => False
   end.
 Proof. vm_compute. repeat split; reflexivity. Qed.
+
+(* the request-object classes in the regenerated table: the override runs the generic check LAST (after the
+   merge: the order jar_verify / par_verify model), the marker key is not a schema parameter; a complete
+   object is accepted, an object without response_type or client_id is refused although the outer request
+   is complete, and without request / request_uri the JWT-secured request is refused *)
+Definition jar_class : pystr := PS "idpyoidc.message.oauth2.JWTSecuredAuthorizationRequest".
+Definition par_class : pystr := PS "idpyoidc.message.oauth2.PushedAuthorizationRequest".
+Definition ro_class : pystr := PS "idpyoidc.message.oauth2.AuthorizationRequest".
+Definition jar_outer : msg :=
+  [(PS "response_type", VList [VStr (PS "code")]); (PS "client_id", VStr (PS "c")); (PS "state", VStr (PS "s"));
+   (PS "request", VStr (PS "eyJ.eyJ.sig"))].
+Definition ro_full : msg := [(PS "response_type", VStr (PS "code")); (PS "client_id", VStr (PS "c"))].
+Example C11_request_object_nonvacuous :
+  match find_class jar_class all_classes, find_class par_class all_classes, find_class ro_class all_classes with
+  | Some c, Some pc, Some roc =>
+      c_overrides_verify c = true /\ c_chain_pos c = ChainLast
+      /\ c_overrides_verify pc = true /\ c_chain_pos pc = ChainLast
+      /\ find_param verified_request (c_params c) = None /\ find_param verified_request (c_params pc) = None
+      /\ jar_verify c roc (Some ro_full) jar_outer =
+           Ok [(PS "response_type", VList [VStr (PS "code")]); (PS "client_id", VStr (PS "c"));
+               (verified_request, VObj [(PS "response_type", VList [VStr (PS "code")]); (PS "client_id", VStr (PS "c"))])]
+      /\ jar_verify c roc (Some (adel (PS "response_type") ro_full)) jar_outer = Err EMissingRequired
+      /\ jar_verify c roc (Some (adel (PS "client_id") ro_full)) jar_outer = Err EMissingRequired
+      /\ jar_verify c roc None (adel (PS "request") jar_outer) = Err EMissingAttribute
+      (* the lax merge keeps the outer parameters *)
+      /\ (exists m', par_verify pc roc (Some (adel (PS "response_type") ro_full)) jar_outer = Ok m'
+                      /\ has_key (PS "response_type") m' = true)
+  | _, _, _ => False
+  end.
+Proof. vm_compute. repeat split; try reflexivity. eexists. split; reflexivity. Qed.
